@@ -18,6 +18,17 @@ D18 (a later registration of a same-named monitor on a cell replaces `cell.monit
 KNOWN finding: programs in which it can occur are generated in a separate stream, its symptoms are
 reported under `C15:second-trainer-redirects-cell-monitors` and the case is cut at that point.
 Every other disagreement is reported under its own key.
+
+Cells that DIE without `del_cell` (the "cell-death" stream): the driver's protocol has no operation for a cell that
+loses its last reference while registered, so the programs of this stream carry two real-side operations —
+`relayer l` (the layer is dropped and collected, a fresh layer with the same connections / neurons takes its slot) and
+`recell c` (a custom Layer deletes one of its cells, the cell is collected, the layer re-creates it) — which `expand`
+rewrites, for the driver, into what the property says about them: a dead cell is not registered any more (`delcell`
+for every registration of a dead cell, in every live trainer), the fresh layer is in training mode.  The real side
+lists, in this stream, only the monitors of the still-registered cells (what the property speaks about; on the real
+code the entries a dead cell left behind stay in the pool until its name is used again) and counts a layer's hooks
+without those left-overs.  Programs then register cells again, preferably under the names the dead cells had, and the
+real trainer is judged against the specification stream exactly as in the other streams.
 """
 from __future__ import annotations
 
@@ -28,7 +39,7 @@ import weakref
 import torch
 
 from inferno.learn import MSTDP, MSTDPET, STDP
-from inferno.neural import Biclique, DeltaCurrent, LIF, LinearDense
+from inferno.neural import Biclique, DeltaCurrent, Layer, LIF, LinearDense
 from inferno.observe import MultiStateMonitor, PassthroughReducer, StateMonitor
 
 from runner import Exploration, Finding
@@ -44,7 +55,14 @@ SPEC = {
     "model_files": ["InfernoVerif/Model/Lifecycle.lean"],
     "driver": "drivers/C15.lean",
     "assumptions": [
-        "the layer owns its cells for the whole program (cells never die; `cells_` and `observed_` of a trainer stay in step)",
+        "model: the layer owns its cells for the whole program (cells never die; `cells_` and `observed_` of a trainer stay in "
+        "step); cells that die while registered are covered on the real side only (cell-death stream: `relayer` / `recell` are "
+        "sent to the driver as del_cell of every registration of a dead cell, and only the monitors of still-registered cells "
+        "are compared)",
+        "cell-death stream: while a trainer still holds entries of a cell whose LAYER died, the programs do not switch that "
+        "trainer to training mode (on the real code `trainer.train()` then raises RuntimeError: the left-over monitors cannot "
+        "be registered, and nothing but registering a cell under the same name removes them) — reported as an observation, "
+        "not searched",
         "CPython's collector is modelled as reference counting: a monitor no pool holds any more is finalised at once; the harness "
         "keeps no reference to monitors or units and calls gc.collect() after dropping a trainer",
         "monitors are post-hooks with train_update=True, eval_update=False (what every shipped trainer uses; user-added monitors "
@@ -69,6 +87,18 @@ MNAMES = ["trace_post", "spike_post", "trace_pre", "spike_pre", "elig_post", "el
 SELS = {"n0": "neuron.spike", "n1": "neuron.voltage", "c0": "connection.synspike", "c1": "connection.syncurrent",
         "cm": "monitors", "bad": "nonexistent.thing"}
 CLASSES = {"STDP": (0, STDP), "MSTDP": (0, MSTDP), "MSTDPET": (1, MSTDPET)}
+DEATH = "death"          # fourth token of the `begin` line of a cell-death program (never sent to the driver)
+DEATH_OPS = ("relayer", "recell")
+
+
+class OpenBiclique(Biclique):
+    """a custom Layer: a Biclique whose cells can be deleted and re-created (through `Layer`'s own add_cell / del_cell)"""
+
+    def add_cell(self, connection, neuron):
+        return Layer.add_cell(self, connection, neuron)
+
+    def del_cell(self, connection, neuron):
+        return Layer.del_cell(self, connection, neuron)
 
 
 def b(x):
@@ -92,12 +122,21 @@ class Real:
         self.gen = torch.Generator().manual_seed(12345)
 
     # -- construction --------------------------------------------------------------------------
-    def _begin(self, topo):
+    death = False
+
+    def _begin(self, topo, death=False):
         triples = [tuple(int(x) for x in p.split(":")) for p in topo.split(",")]
         self.pairs = triples                      # cell index -> (layer, connection, neuron)
         self.nin = {c: 3 + c for _, c, _ in triples}
         self.layers = {}
+        self.death = death
         self.gen = torch.Generator().manual_seed(12345)
+        for l in sorted({l for l, _, _ in triples}):
+            self.layers[l] = self._build_layer(l)
+        self.trainers, self.classes, self.nt = {}, {}, 0
+
+    def _build_layer(self, l):
+        triples = self.pairs
 
         def mkconn(c):
             conn = LinearDense((self.nin[c],), (2,), 1.0, synapse=DeltaCurrent.partialconstructor(100.0),
@@ -109,14 +148,13 @@ class Real:
             return LIF((2,), 1.0, rest_v=-60.0, reset_v=-65.0, thresh_v=-50.0, refrac_t=2.0, time_constant=20.0,
                        resistance=1.0)
 
-        for l in sorted({l for l, _, _ in triples}):
-            conns = sorted({c for ll, c, _ in triples if ll == l})
-            neus = sorted({n for ll, _, n in triples if ll == l})
-            assert sorted((c, n) for ll, c, n in triples if ll == l) == sorted((c, n) for c in conns for n in neus), \
-                "a Biclique layer needs the full product"
-            # connection / neuron NAMES are per layer: two layers deliberately use the same names
-            self.layers[l] = Biclique([(f"c{c}", mkconn(c)) for c in conns], [(f"n{n}", mkneu()) for n in neus])
-        self.trainers, self.classes, self.nt = {}, {}, 0
+        conns = sorted({c for ll, c, _ in triples if ll == l})
+        neus = sorted({n for ll, _, n in triples if ll == l})
+        assert sorted((c, n) for ll, c, n in triples if ll == l) == sorted((c, n) for c in conns for n in neus), \
+            "a Biclique layer needs the full product"
+        # connection / neuron NAMES are per layer: two layers deliberately use the same names
+        cls = OpenBiclique if self.death else Biclique
+        return cls([(f"c{c}", mkconn(c)) for c in conns], [(f"n{n}", mkneu()) for n in neus])
 
     def _cell(self, idx):
         l, c, n = self.pairs[idx]
@@ -177,6 +215,10 @@ class Real:
             if [c[0] for _, c in named_cells] != [c[0] for c in cells]:
                 cells_s += "[cells!=named_cells]"
         named, e3 = self._listing(lambda: tr.named_monitors)
+        if self.death and not (e1 or e2 or e3):
+            # what the property speaks about: the monitors of the still-registered cells
+            live = {n for n, _ in named_cells}
+            named = [((cn, mn), m) for (cn, mn), m in named if cn in live]
         if e3:
             named_s = own_s = f"ERR({e3})"
         else:
@@ -198,6 +240,8 @@ class Real:
                     own.append(f"{cn[1:]}.{MNAMES.index(mn)}:{b(ok)}")
             own_s = ",".join(own) or "-"
         mons, e4 = self._listing(lambda: tr.monitors)
+        if self.death and not (e3 or e4):
+            mons = [m for m in mons if any(x is m for _, x in named)]
         if e4:
             mons_s = f"ERR({e4})"
         elif e3:
@@ -211,9 +255,30 @@ class Real:
             mons_s = ",".join(first(m) for m in mons) or "-"
         return f"T{t} tr={b(tr.training)} cells={cells_s} named={named_s} mons={mons_s} own={own_s}"
 
+    def _leftover_hooks(self, l):
+        """registered monitors on layer `l` that only a dead cell's left-over pool entries hold"""
+        n = 0
+        for tr in self.trainers.values():
+            try:
+                live = set(tr.cells_.keys())
+                groups = [(o, list(g.values())) for o, g in tr.monitor_pool_.monitors_.items()]
+            except Exception:
+                continue
+            kept = [m for o, g in groups if o in live for m in g]
+            seen = []
+            for o, g in groups:
+                for m in g:
+                    if o in live or any(m is x for x in kept) or any(m is x for x in seen):
+                        continue
+                    seen.append(m)
+                    if m.registered and self._layer_of(m) == l:
+                        n += 1
+        return n
+
     def _dump(self):
-        nl = max(self.layers) + 1
-        hooks = "/".join(str(len(self.layers[l]._forward_hooks)) if l in self.layers else "0" for l in range(nl))
+        nl = max(max(l for l, _, _ in self.pairs), max(self.layers, default=0)) + 1
+        hooks = "/".join(str(len(self.layers[l]._forward_hooks) - (self._leftover_hooks(l) if self.death else 0))
+                         if l in self.layers else "0" for l in range(nl))
         pre = sum(len(layer._forward_pre_hooks) for layer in self.layers.values())
         ts = " ; ".join(self._dump_trainer(t) for t in sorted(self.trainers)) or "-"
         return f"hooks {hooks}" + (f"[+{pre} pre-hooks]" if pre else "") + " | " + ts
@@ -222,7 +287,7 @@ class Real:
     def exec(self, line):
         tok = line.split()
         if tok[0] == "begin":
-            self._begin(tok[1])
+            self._begin(tok[1], death=len(tok) > 3 and tok[3] == DEATH)
             return "ok"
         try:
             out = self._exec(tok)
@@ -254,6 +319,25 @@ class Real:
             inputs = {f"c{c}": ((torch.rand(1, self.nin[c], generator=self.gen) < 0.5).float(),) for c in conns}
             self.layers[l](inputs)
             return "ok"
+        if op == "relayer":
+            # the layer loses its last reference WITHOUT its cells being removed from any trainer; a fresh layer takes its slot
+            l = int(tok[1])
+            ref = weakref.ref(self.layers[l])
+            del self.layers[l]
+            gc.collect()
+            out = "ok" if ref() is None else "ok[layer still alive]"
+            self.layers[l] = self._build_layer(l)
+            return out
+        if op == "recell":
+            # a custom Layer deletes one of its cells (collected WITHOUT del_cell on any trainer) and re-creates it
+            l, c, n = self.pairs[int(tok[1])]
+            layer = self.layers[l]
+            ref = weakref.ref(layer.cells_[f"c{c}"][f"n{n}"])
+            layer.del_cell(f"c{c}", f"n{n}")
+            gc.collect()
+            out = "ok" if ref() is None else "ok[cell still alive]"
+            layer.add_cell(f"c{c}", f"n{n}")
+            return out
         t = int(tok[1])
         tr = self.trainers.get(t)
         if tr is None:
@@ -312,12 +396,20 @@ def d18_prone(case):
     """some cell index is registered more than once (by any trainers) and a kind-1 trainer is involved"""
     kinds = []
     regs = {}
+    topo = [tuple(int(x) for x in p.split(":")) for p in case[0].split()[1].split(",")] if case else []
+    gen = {}                                     # a cell index names a NEW cell after `relayer` / `recell`
     for l in case:
         t = l.split()
         if t[0] == "trainer":
             kinds.append(int(t[1]))
         elif t[0] == "register":
-            regs.setdefault(int(t[3]), []).append(int(t[1]))
+            regs.setdefault((int(t[3]), gen.get(int(t[3]), 0)), []).append(int(t[1]))
+        elif t[0] == "relayer":
+            for c, tp in enumerate(topo):
+                if tp[0] == int(t[1]):
+                    gen[c] = gen.get(c, 0) + 1
+        elif t[0] == "recell":
+            gen[int(t[1])] = gen.get(int(t[1]), 0) + 1
     for c, ts in regs.items():
         if len(ts) >= 2 and any(k < len(kinds) and kinds[k] == 1 for k in ts):
             return True
@@ -344,7 +436,7 @@ def is_cross_layer_symptom(case, i, expected, observed):
         if k.endswith(".named") and k in fo:
             le = re.findall(r"(\d+\.\d+):[RU]:\d+:L(\w+)", fe[k])
             lo = re.findall(r"(\d+\.\d+):[RU]:\d+:L(\w+)", fo[k])
-            if [x for x, _ in le] == [x for x, _ in lo] and le != lo:
+            if [x for x, _ in le] == [x for x, _ in lo] and le != lo and not any(y == "?" for _, y in lo):
                 return True
     return False
 
@@ -387,6 +479,72 @@ def is_d18_symptom(case, i, expected, observed):
     return True
 
 
+def is_death(case):
+    head = case[0].split() if case else []
+    return len(head) > 3 and head[3] == DEATH
+
+
+def expand(case):
+    """(lines for the driver, for every op of the case the index of its LAST driver line).
+
+    Programs of the cell-death stream: `relayer l` / `recell c` become what the property says about them — every
+    registration of a dead cell is gone (`delcell t n` for each, found by plain book-keeping over the program text: a
+    registration succeeds iff the trainer exists, the cell index exists and the name is free), the layer's mode is
+    that of a fresh layer (training) after `relayer` and unchanged after `recell`."""
+    if not is_death(case):
+        return list(case), list(range(len(case)))
+    head = case[0].split()
+    topo = [tuple(int(x) for x in p.split(":")) for p in head[1].split(",")]
+    lines, last = [" ".join(head[:3])], [0]
+    nt, alive, names, flags = 0, set(), {}, {}
+    for line in case[1:]:
+        t = line.split()
+        if t[0] in DEATH_OPS:
+            if t[0] == "relayer":
+                l = int(t[1])
+                dead = {c for c, tp in enumerate(topo) if tp[0] == l}
+                flags[l] = True
+            else:
+                dead = {int(t[1])}
+                l = topo[int(t[1])][0]
+            for tr in sorted(alive):
+                for n, c in sorted(names[tr].items()):
+                    if c in dead:
+                        lines.append(f"delcell {tr} {n}")
+                        del names[tr][n]
+            lines.append(f"ltrain {l} {b(flags.get(l, True))}")
+        else:
+            if t[0] == "trainer":
+                alive.add(nt)
+                names[nt] = {}
+                nt += 1
+            elif t[0] == "collect":
+                alive.discard(int(t[1]))
+            elif t[0] == "register":
+                tr, n, c = int(t[1]), int(t[2]), int(t[3])
+                if tr in alive and c < len(topo) and n not in names[tr]:
+                    names[tr][n] = c
+            elif t[0] == "delcell":
+                if int(t[1]) in alive:
+                    names[int(t[1])].pop(int(t[2]), None)
+            elif t[0] == "ltrain":
+                flags[int(t[1])] = tb(t[2])
+            lines.append(line)
+        last.append(len(lines) - 1)
+    return lines, last
+
+
+def drive(ctx, cases):
+    """the driver's answers, one per op of every case (one driver process for all cases)"""
+    exp = [expand(c) for c in cases]
+    resp = ctx.run_driver(DRIVER, [l for lines, _ in exp for l in lines])
+    out, pos = [], 0
+    for lines, last in exp:
+        out.append([resp[pos + i] for i in last])
+        pos += len(lines)
+    return out
+
+
 def compare_case(case, real, resp):
     """first disagreement (index, kind, expected, observed); spec disagreements take precedence"""
     for i, ((rm, rs), line) in enumerate(zip(real, resp)):
@@ -413,7 +571,7 @@ def shrink_case(ctx, case, kind, key, max_tries=60):
 
     def fails(c):
         real = seqcheck.exec_real(Real, c)
-        resp = ctx.run_driver(DRIVER, c)
+        resp = drive(ctx, [c])[0]
         d = compare_case(c, real, resp)
         if d is None or d[1] != kind:
             return False
@@ -437,15 +595,11 @@ def shrink_case(ctx, case, kind, key, max_tries=60):
 
 
 def run_cases(ctx, cases, ex: Exploration, max_findings=6):
-    flat = [l for c in cases for l in c]
     reals = [seqcheck.exec_real(Real, c) for c in cases]
-    resp = ctx.run_driver(DRIVER, flat)
-    pos = 0
+    resps = drive(ctx, cases)
     nfound = 0
     seen_keys = {}
-    for case, real in zip(cases, reals):
-        r = resp[pos:pos + len(case)]
-        pos += len(case)
+    for case, real, r in zip(cases, reals, resps):
         ex.evaluations += len(case)
         ex.traces_validated += 1
         if nontrivial(case, real):
@@ -471,13 +625,19 @@ def run_cases(ctx, cases, ex: Exploration, max_findings=6):
                 continue
         small = shrink_case(ctx, case[: d[0] + 1], d[1], key)
         real2 = seqcheck.exec_real(Real, small)
-        resp2 = ctx.run_driver(DRIVER, small)
+        resp2 = drive(ctx, [small])[0]
         d2 = compare_case(small, real2, resp2) or d
+        info = {"ops": small, "index": d2[0], "expected": d2[2], "observed": d2[3],
+                "disagreement": "code vs specification" if d2[1] == "spec" else "code vs code-shaped model"}
+        if is_death(small):
+            info["sent_to_driver"] = expand(small)[0]
+            info["note"] = ("`relayer l`: layer l is dropped and collected without del_cell on any trainer, a fresh layer with the "
+                            "same connections / neurons takes its slot; `recell c`: a custom Layer deletes cell c, the cell is "
+                            "collected, the layer re-creates it; only monitors of still-registered cells are listed")
         ex.findings.append(Finding(
             kind=d2[1], key=key_of(small, d2),
             what=f"op `{small[d2[0]]}`: expected `{d2[2]}` observed `{d2[3]}`",
-            case={"ops": small, "index": d2[0], "expected": d2[2], "observed": d2[3],
-                  "disagreement": "code vs specification" if d2[1] == "spec" else "code vs code-shaped model"}))
+            case=info))
 
 
 def nontrivial(case, real):
@@ -584,6 +744,123 @@ def random_program(rng, prone: bool, maxlen=40, two_layers=False):
     return lines
 
 
+def death_program(rng, maxlen=40, two_layers=False):
+    """a D18-free program in which registered cells DIE without del_cell (`relayer`: their layer is dropped and rebuilt;
+    `recell`: a custom layer deletes and re-creates one cell) and cells are registered again, preferably under the names
+    the dead cells had"""
+    topo = rng.choice(TOPOS2 if two_layers else TOPOS)
+    triples = [tuple(int(x) for x in p.split(":")) for p in topo.split(",")]
+    ncells = len(triples)
+    nlayers = 1 + max(l for l, _, _ in triples)
+    lstep = lambda: f"lstep {rng.randrange(nlayers)}"
+    lines = [begin_line(topo) + " " + DEATH]
+    ntr = rng.choice([1, 1, 2, 2, 3])
+    kinds = []
+    for i in range(ntr):
+        cls = rng.choice(["STDP", "STDP", "MSTDP", "MSTDPET", "MSTDPET"])
+        kinds.append(CLASSES[cls][0])
+        lines.append(f"trainer {CLASSES[cls][0]} {cls}")
+    alive = set(range(ntr))
+    names = {t: {} for t in range(ntr)}          # t -> name -> cell index (live registrations)
+    stale = {t: {} for t in range(ntr)}          # t -> name -> True if the cell's LAYER died (left-over pool entries)
+    users = {}                                   # cell index -> registrations (t) of the CURRENT cell object, ever
+
+    def can_register(t, c):
+        # D18-free: the current cell object is used by one MSTDPET registration and nothing else, or by kind-0 trainers only
+        u = users.get(c, [])
+        return not u if kinds[t] == 1 else all(kinds[x] == 0 for x in u)
+
+    def die(cells, layer_dead):
+        for t in alive:
+            for n, c in list(names[t].items()):
+                if c in cells:
+                    del names[t][n]
+                    stale[t][n] = layer_dead or stale[t].get(n, False)
+        for c in cells:
+            users.pop(c, None)
+
+    length = rng.randint(10, maxlen)
+    while len(lines) < length + 1 + ntr:
+        if not alive:
+            lines.append(lstep())
+            continue
+        r = rng.random()
+        t = rng.choice(sorted(alive))
+        mine = names[t]
+        if r < 0.24 or (r < 0.5 and not mine):
+            free_stale = sorted(n for n in stale[t] if n not in mine)
+            n = rng.choice(free_stale) if free_stale and rng.random() < 0.75 else rng.randrange(3)
+            c = rng.randrange(ncells)
+            if n not in mine and not can_register(t, c):
+                lines.append(lstep())
+                continue
+            lines.append(f"register {t} {n} {c} {rng.choice([0, 0, 1])}")
+            if n not in mine:
+                mine[n] = c
+                stale[t].pop(n, None)
+                users.setdefault(c, []).append(t)
+        elif r < 0.28:
+            n = rng.choice(sorted(mine)) if mine and rng.random() < 0.8 else rng.randrange(3)
+            lines.append(f"delcell {t} {n}")
+            mine.pop(n, None)
+        elif r < 0.35:
+            n = rng.choice(sorted(mine)) if mine and rng.random() < 0.9 else rng.randrange(3)
+            m = rng.choice([6, 6, 7, 0, 1, 2, 3])
+            uq = rng.random() < 0.35 and not (m < 4 and kinds[t] == 1)
+            sel = {0: "n0", 1: "n0", 2: "c0", 3: "c0"}.get(m) if m < 4 else rng.choice(["n0", "n0", "n1", "c0", "c1", "bad"])
+            lines.append(f"addmon {t} {n} {m} {sel} {b(uq)} {b(rng.random() < 0.5)} {rng.choice([100, 100, 101])}")
+        elif r < 0.40:
+            n = rng.choice(sorted(mine)) if mine and rng.random() < 0.9 else rng.randrange(3)
+            pool = [6, 7, 6, 7, 4, 5] if kinds[t] == 1 else [6, 7, 0, 1, 2, 3]
+            lines.append(f"delmon {t} {n} {rng.choice(pool)}")
+        elif r < 0.47:
+            on = rng.random() < 0.55
+            if on and any(stale[t].values()):
+                on = False                       # see SPEC["assumptions"]: trainer.train() with a dead layer's left-overs raises
+            lines.append(f"ttrain {t} {b(on)}")
+        elif r < 0.52:
+            lines.append(f"ltrain {rng.randrange(nlayers)} {b(rng.random() < 0.6)}")
+        elif r < 0.74:
+            lines.append(lstep())
+        elif r < 0.82:
+            lines.append(f"tstep {t}")
+        elif r < 0.85:
+            lines.append(f"clear {t}")
+        elif r < 0.87 and ntr > 1:
+            lines.append(f"collect {t}")
+            alive.discard(t)
+        elif r < 0.94:
+            l = rng.randrange(nlayers)
+            lines.append(f"relayer {l}")
+            die({c for c, tp in enumerate(triples) if tp[0] == l}, True)
+        else:
+            c = rng.randrange(ncells)
+            lines.append(f"recell {c}")
+            die({c}, False)
+    return lines
+
+
+def scripted_death_cases():
+    """cells die without del_cell, cells are registered again under the same names"""
+    B = lambda topo: begin_line(topo) + " " + DEATH
+    out = []
+    for cls in ("STDP", "MSTDPET"):
+        k = CLASSES[cls][0]
+        # the whole layer is dropped and rebuilt; all cells registered again under their old names
+        out.append([B("0:0:0,0:0:1,0:1:0,0:1:1"), f"trainer {k} {cls}"] + [f"register 0 {n} {n} 0" for n in range(3)] +
+                   ["lstep 0", "lstep 0", "tstep 0", "relayer 0"] + [f"register 0 {n} {n} 0" for n in range(3)] +
+                   ["lstep 0", "lstep 0", "tstep 0", "ttrain 0 F", "lstep 0", "ttrain 0 T", "lstep 0", "tstep 0"])
+        # one cell is deleted and re-created by its layer; registered again under the old name (other cell / other variant)
+        out.append([B("0:0:0,0:1:0"), f"trainer {k} {cls}", "register 0 0 0 0", "register 0 1 1 0", "lstep 0", "lstep 0",
+                    "recell 0", "lstep 0", "register 0 0 0 1", "lstep 0", "tstep 0", "ttrain 0 F", "ttrain 0 T", "lstep 0",
+                    "tstep 0", "recell 1", "delcell 0 0", "register 0 1 0 0", "lstep 0", "tstep 0"])
+    # one of two layers dies; the survivor's cells keep recording; the old name goes to a cell of the other layer
+    out.append([B("0:0:0,1:0:0"), "trainer 0 STDP", "trainer 0 MSTDP", "register 0 0 0 0", "register 1 0 1 0", "lstep 0",
+                "lstep 1", "relayer 0", "lstep 1", "lstep 0", "tstep 1", "register 0 0 0 1", "lstep 0", "lstep 1", "tstep 0",
+                "tstep 1", "relayer 1", "register 1 0 1 0", "lstep 1", "tstep 1"])
+    return out
+
+
 def scripted_cases():
     """fixed scenarios (also kept under corpus/C15)"""
     B = begin_line
@@ -600,6 +877,33 @@ def scripted_cases():
           "tstep 0"]
     xl2 = [B("0:0:0,1:0:0"), "trainer 1 MSTDPET", "register 0 0 0 0", "register 0 1 1 0", "lstep 1", "lstep 0", "tstep 0"]
     return [d17, d17b, d18, d18b, xl, xl2]
+
+
+def reregistration_kind(case):
+    """does the program register a cell under a name whose previous cell died without del_cell?"""
+    topo = [tuple(int(x) for x in p.split(":")) for p in case[0].split()[1].split(",")]
+    names, stale, hit = {}, {}, set()
+    for line in case[1:]:
+        t = line.split()
+        if t[0] == "register" and int(t[3]) < len(topo):
+            tr, n = int(t[1]), int(t[2])
+            if n not in names.setdefault(tr, {}):
+                names[tr][n] = int(t[3])
+                if n in stale.get(tr, {}):
+                    hit.add(stale[tr].pop(n))
+        elif t[0] == "delcell":
+            names.get(int(t[1]), {}).pop(int(t[2]), None)
+        elif t[0] == "collect":
+            names.pop(int(t[1]), None)
+            stale.pop(int(t[1]), None)
+        elif t[0] in DEATH_OPS:
+            dead = {c for c, tp in enumerate(topo) if tp[0] == int(t[1])} if t[0] == "relayer" else {int(t[1])}
+            for tr, d in names.items():
+                for n, c in list(d.items()):
+                    if c in dead:
+                        del d[n]
+                        stale.setdefault(tr, {})[n] = "same name after " + t[0]
+    return "+".join(sorted(hit)) or "none"
 
 
 def corpus_cases():
@@ -628,7 +932,10 @@ def explore(ctx) -> Exploration:
     prone = [random_program(rng, True) for _ in range(nprone)]
     ntwo = 120 if not thorough else 700
     two = [random_program(rng, False, two_layers=True) for _ in range(ntwo)]
-    cases += free + prone + two
+    sdeath = scripted_death_cases()
+    ndeath = 110 if not thorough else 700
+    death = [death_program(rng, two_layers=(i % 4 == 3)) for i in range(ndeath)]
+    cases += free + prone + two + sdeath + death
     for c in cases:
         for l in c:
             t = l.split()
@@ -637,8 +944,11 @@ def explore(ctx) -> Exploration:
                 ex.count("trainer_class", t[2] if len(t) > 2 else t[1])
         ex.count("topology", c[0].split()[1])
         ex.count("program_length", str(10 * ((len(c) - 1) // 10)) + "+")
-        ex.count("stream", ("two-layers-in-one-trainer " if cross_layer_prone(c) else "") +
+        ex.count("stream", ("cells-die-unremoved " if is_death(c) else "") +
+                 ("two-layers-in-one-trainer " if cross_layer_prone(c) else "") +
                  ("D18-prone" if d18_prone(c) else "D18-free"))
+        if is_death(c):
+            ex.count("reregistration_after_cell_death", reregistration_kind(c))
     run_cases(ctx, cases, ex)
     ex.rule = ("cases = corpus + 4 scripted scenarios (D17: deleting one of two cells that share pooled monitors, on shared neuron "
                "and on shared connection; D18: second trainer on a cell, then its deletion) + seeded random programs (length <= 40) "
@@ -646,10 +956,16 @@ def explore(ctx) -> Exploration:
                "neurons and/or connections, and (third stream) on TWO layers with equal connection / neuron names whose cells one "
                "trainer may register side by side; the D18-free stream never lets a cell used by an MSTDPET registration be registered a "
                "second time, the D18-prone stream does; 3% of trainer-addressed ops name a dropped / never-created trainer; a case "
-               "is non-trivial when some monitor recorded at least one observation; distinct = distinct protocol text")
-    ex.samples = [scripted[0], free[0], prone[0]]
+               "is non-trivial when some monitor recorded at least one observation; distinct = distinct protocol text; "
+               "(fourth stream, cells-die-unremoved) D18-free programs with two more real-side operations — `relayer l`: the "
+               "layer is dropped and collected WITHOUT del_cell and a fresh layer takes its slot, `recell c`: a custom Layer "
+               "deletes one cell, it is collected, the layer re-creates it — after which cells are registered again, three "
+               "times out of four under a name a dead cell had; the driver sees del_cell for every registration of a dead "
+               "cell, the real trainer's listings are restricted to still-registered cells")
+    ex.samples = [scripted[0], free[0], prone[0], sdeath[0], death[0]]
     ex.extra["streams"] = {"corpus": ncorpus, "scripted": len(scripted), "random_D18_free": len(free),
-                           "random_D18_prone": len(prone), "random_two_layers": len(two)}
+                           "random_D18_prone": len(prone), "random_two_layers": len(two),
+                           "scripted_cells_die_unremoved": len(sdeath), "random_cells_die_unremoved": len(death)}
     ex.extra["model_layer_filter"] = LAYER_FILTER
     return ex
 
@@ -660,7 +976,7 @@ def replay(ctx, data) -> int:
         print("replay file has no op sequence (proof/tie breakage without failing input):", data.get("broken"))
         return 1
     real = seqcheck.exec_real(Real, case)
-    resp = ctx.run_driver(DRIVER, case)
+    resp = drive(ctx, [case])[0]
     for l, r, d in zip(case, real, resp):
         print(f"{l}\n    real: {r[0]}\n    lean: {d}")
     d = compare_case(case, real, resp)
